@@ -213,4 +213,67 @@ def certShape (env : Env) (defs : Spec.Defs) : Nat → GoTy → Schema → Bool
       | .int .int => s.node.types == ["integer"]
       | _ => false
 
+
+/-! ### … plus numeric members with bounds -/
+
+/-- (nillable, integer-typed) of the Go types a numeric validator is attached to -/
+def numBase : GoTy → Option (Bool × Bool)
+  | .int .int => some (false, true)
+  | .float64 => some (false, false)
+  | .ptr (.int .int) => some (true, true)
+  | .ptr .float64 => some (true, false)
+  | _ => none
+
+/-- the numeric validator on `field` is exactly the check the schema of that member asks for -/
+def numJustified (fs : List Field) (s : Schema) (field : String) (nl : Bool) (c : NumCheck) : Bool :=
+  match fs.find? (fun fl => fl.name = field) with
+  | some fl => (match alookup fl.jsonKey s.node.props with
+     | some ps => ps.node.ref == "" && decide (numBase fl.ty = some (nl, c.roundToInt)) &&
+         ps.node.types == [if c.roundToInt then "integer" else "number"] &&
+         c.mult.isNone && decide (c.lo = ps.node.minimum) && decide (c.hi = ps.node.maximum) &&
+         decide (c.xlo = ps.node.xmin) && decide (c.xhi = ps.node.xmax) && decide (c.xlo ≠ .other) && decide (c.xhi ≠ .other) &&
+         (nl || s.node.required.contains fl.jsonKey)
+     | none => false)
+  | none => false
+
+/-- `certShape` plus numeric members with bounds: a struct may carry, besides presence checks, numeric validators that
+    are exactly what the member's schema states (`numJustified`) -/
+def certFull (env : Env) (defs : Spec.Defs) : Nat → GoTy → Schema → Bool
+  | 0, _, _ => false
+  | f + 1, ty, s =>
+    if s.node.ref ≠ "" then
+      (match Spec.refName s.node.ref with
+       | some name => (match alookup name defs with | some t => certFull env defs f ty t | none => false)
+       | none => false)
+    else match ty with
+      | .ptr t => certFull env defs f t s
+      | .named nm =>
+        (match env.resolve 8 nm with
+         | some d => (match d.body, d.ty with
+            | .plain vs m, .strct fs =>
+                d.hasMethod == m && (m || vs.isEmpty) && !d.ty.isFmt &&
+                s.node.types == ["object"] && s.node.enum.isNone && s.node.allOf.isEmpty && s.node.anyOf.isEmpty &&
+                !s.node.hasNot && s.node.addl.isNone &&
+                (fs.find? (fun fl => fl.name = "AdditionalProperties")).isNone &&
+                decide (fs.length ≤ 31) && decide ((fs.map (·.name)).Nodup) && decide ((fs.map (·.jsonKey)).Nodup) &&
+                vs.all (fun v => match v with
+                  | .required k => s.node.required.contains k
+                  | .numeric field nl c => field != "" && numJustified fs s field nl c
+                  | _ => false) &&
+                fs.all (fun fl => (akeys s.node.props).contains fl.jsonKey) &&
+                s.node.props.all (fun p => match bindKey fs p.1 with
+                  | some fld => fld.jsonKey == p.1 && certFull env defs f fld.ty p.2
+                  | none => false)
+            | _, _ => false)
+         | none => false)
+      | .slice t =>
+        s.node.types == ["array"] && s.node.enum.isNone && s.node.allOf.isEmpty && s.node.anyOf.isEmpty && !s.node.hasNot &&
+        (match t with | .named _ => false | .int .u8 => false | _ => true) &&
+        (match s.node.items with | some it => certFull env defs f t it | none => false)
+      | .string => s.node.types == ["string"]
+      | .bool => s.node.types == ["boolean"]
+      | .float64 => s.node.types == ["number"]
+      | .int .int => s.node.types == ["integer"]
+      | _ => false
+
 end GJS
